@@ -120,3 +120,37 @@ Proof.
   induction items as [|it r IH]; intros st H; cbn [run_items]; [reflexivity|].
   rewrite H. destruct (step2 st it); cbn [bind]; [now apply IH | reflexivity | reflexivity].
 Qed.
+
+(* ---------- including a file = reading its items in place, under a fresh file-local state ---------- *)
+Lemma run_items_app step a : forall b st,
+  run_items step (a ++ b) st = do st' <- run_items step a st; run_items step b st'.
+Proof.
+  induction a as [|x a IH]; intros b st; cbn [app run_items bind]; [reflexivity|].
+  destruct (step st x) as [st1| |]; cbn [bind]; [apply IH | reflexivity | reflexivity].
+Qed.
+
+Definition mark_used (g : gstate) (t : nat) : gstate :=
+  {| g_tab := g_tab g; g_zones := g_zones g; g_labels := g_labels g; g_used := t :: g_used g; g_region := g_region g |}.
+
+Theorem include_in_place cfg fu files fid t items_t pre post g0 fs0 acc0 :
+  nth_error files t = Some items_t ->
+  run_items (item_step cfg (load (S fu) cfg files) fid) (pre ++ IInclude (Some t) :: post) (g0, fs0, acc0) =
+  do st1 <- run_items (item_step cfg (load (S fu) cfg files) fid) pre (g0, fs0, acc0);
+  let '(g1, fs1, acc1) := st1 in
+  if currently_active (f_stack fs1) then
+    if in_nat t (g_used g1) then Rejected else
+    do rt <- run_items (item_step cfg (load fu cfg files) t) items_t (mark_used g1 t, file_init t, []);
+    let '(g2, _, acct) := rt in
+    run_items (item_step cfg (load (S fu) cfg files) fid) post (g2, fs1, acct ++ acc1)
+  else run_items (item_step cfg (load (S fu) cfg files) fid) post (g1, fs1, acc1).
+Proof.
+  intros Hn. rewrite run_items_app.
+  destruct (run_items _ pre (g0, fs0, acc0)) as [[[g1 fs1] acc1]| |]; cbn [bind]; try reflexivity.
+  cbn [run_items]. unfold item_step at 1.
+  destruct (currently_active (f_stack fs1)); [|reflexivity].
+  destruct (in_nat t (g_used g1)); [reflexivity|].
+  cbn [load]. rewrite Hn. fold (mark_used g1 t).
+  destruct (run_items (item_step cfg (load fu cfg files) t) items_t (mark_used g1 t, file_init t, [])) as [[[g2 fs2] acct]| |];
+    cbn [bind fst snd]; try reflexivity.
+  now rewrite rev_involutive.
+Qed.
